@@ -37,3 +37,222 @@ L_add = Lemma('L_add', [('w', RS), ('x', RS), ('y', RS), ('u', RS), ('i', TInt)]
               ensures=["SWX(w, u, i) == SWX(w, x, i) + SWX(w, y, i)"], induction='i')
 CONTRACTS = []
 LEMMAS = [L_swpos, L_box, L_shift, L_scale, L_add]
+
+# ------------------------------------------------------------------ do_average_bead: the averaging loop, on the real source
+PNode, Sub, AKey, Vec = TKey('PNode'), TKey('Sub'), TKey('AKey'), TKey('Vec')
+Item = TTuple(AKey, Sub)
+WOpt = TOpt(TStr)
+
+
+def setup_dab(cx):
+    eng = cx.eng
+    from pyvc.values import IterV
+    from pyvc.builtins import _int
+    pnodes = cx.val('pnodes', TSeq(PNode))                 # molecule.nodes.values(), in order
+    cx.spec_env['pnodes'] = pnodes
+    has_graph = cx.uf('has_graph', [PNode], TBool)         # 'graph' in node
+    subs = cx.uf('subs', [PNode], TSeq(Item))              # node['graph'].nodes.items(): (key, atom) in the graph's order
+    pos_of = cx.uf('pos_of', [Sub], TOpt(Vec))             # atom.get('position')
+    cw_get = cx.uf('cw_get', [Sub, WOpt], TReal)           # atom.get(weight, 1)
+    mw_get = cx.uf('mw_get', [PNode, AKey], TReal)         # node.get('mapping_weights', {}).get(key, 1)
+    wmean = cx.uf('wmean', [TSeq(Vec), TSeq(TReal)], Vec)  # numpy.average(positions, axis=0, weights=weights)
+    cx.uf('pix_ix', [PNode, TInt], TInt)
+    cx.uf('pix_rk', [PNode, TInt], TInt)
+    cx.uf('pix_len', [PNode], TInt)
+    nanvec = z3.Const('NANVEC', Vec.sort())
+    cx.spec_env['NANVEC'] = SV(Vec, nanvec)
+    POS = cx.heap('POS', cx.box('POS', TMap(PNode, Vec)))  # node['position'] of the particles
+    weight = cx.val('weight', WOpt)
+    s_ = z3.Const('s', Sub.sort())
+    # attribute dictionaries have no None key: atom.get(None, 1) is 1
+    cx.assume(z3.ForAll([s_], cw_get(s_, WOpt.none()) == 1))
+    n_ = z3.Const('n', PNode.sort())
+    cx.assume(z3.ForAll([n_], TSeq(Item).len(subs(n_)) >= 0))
+
+    def sub_view(se):
+        o = Obj('atomdict')
+
+        def get(e, k, d=None):
+            if k == 'position' and d is None:
+                return SV(TOpt(Vec), pos_of(se))
+            if d == 1:
+                return SV(TReal, cw_get(se, to_z3(k, WOpt)))
+            raise EngineError('atom.get(%r, %r) is not modelled' % (k, d))
+
+        def item(e, k):
+            if k != 'position':
+                raise EngineError('atom[%r] is not modelled' % (k,))
+            e.maybe_raise(z3.Not(TOpt(Vec).is_none(pos_of(se))), 'KeyError')
+            return SV(Vec, TOpt(Vec).get(pos_of(se)))
+        o.attrs['get'] = Builtin(get, 'atom.get')
+        o.attrs['__getitem__'] = Builtin(item, 'atom[]')
+        return o
+
+    def node_view(pe):
+        o = Obj('particledict')
+        o.__dict__['ctx_key'] = SV(PNode, pe)
+        items = subs(pe)
+        ty = TSeq(Item)
+
+        def it_items(e):
+            return IterV(ty.len(items), lambda i: (SV(AKey, Item.get(ty.at(items, _int(i)), 0)),
+                                                             sub_view(Item.get(ty.at(items, _int(i)), 1))))
+
+        def it_values(e):
+            return IterV(ty.len(items), lambda i: sub_view(Item.get(ty.at(items, _int(i)), 1)))
+        nodes = Obj('NodeView')
+        nodes.attrs['__call__'] = Builtin(lambda e: nodes, 'nodes()')
+        nodes.attrs['items'] = Builtin(it_items, 'nodes.items')
+        nodes.attrs['values'] = Builtin(it_values, 'nodes.values')
+        graph = Obj('graph', nodes=nodes)
+        mw = Obj('mapping_weights')
+        mw.attrs['get'] = Builtin(lambda e, k, d=None: SV(TReal, mw_get(pe, to_z3(k, AKey))), 'mapping_weights.get')
+
+        def get(e, k, d=None):
+            if k == 'mapping_weights':
+                return mw
+            raise EngineError('particle.get(%r) is not modelled' % (k,))
+
+        def item(e, k):
+            if k == 'graph':
+                e.maybe_raise(has_graph(pe), 'KeyError')
+                return graph
+            raise EngineError('particle[%r] is not modelled' % (k,))
+
+        def setitem(e, k, v):
+            if k != 'position':
+                raise EngineError('particle[%r] = ... is not modelled' % (k,))
+            from pyvc.builtins import setitem as _set
+            _set(e, POS, SV(PNode, pe), v)
+        o.attrs['get'] = Builtin(get, 'particle.get')
+        o.attrs['__getitem__'] = Builtin(item, 'particle[]')
+        o.attrs['__setitem__'] = Builtin(setitem, 'particle[]=')
+        o.attrs['__contains__'] = Builtin(lambda e, k: wrap(TBool, has_graph(pe)) if k == 'graph' else (_ for _ in ()).throw(
+            EngineError('%r in particle is not modelled' % (k,))), 'in particle')
+        return o
+    pty = TSeq(PNode)
+    nodes = Obj('NodeView')
+    nodes.attrs['values'] = Builtin(lambda e: IterV(pty.len(to_z3(pnodes)),
+                                                    lambda i: node_view(pty.at(to_z3(pnodes), _int(i)))), 'molecule.nodes.values')
+    molecule = cx.obj('Molecule', nodes=nodes)
+    # numpy on this path
+    np_ = Obj('numpy')
+    nan = Obj('nan')
+
+    def np_array(e, x, dtype=None):
+        if isinstance(x, list) and x and all(v is nan for v in x):
+            return SV(Vec, nanvec)                         # an all-NaN vector (its length is immaterial)
+        return x                                           # an array of the listed rows: the list itself
+    np_.attrs['array'] = Builtin(np_array, 'numpy.array')
+    np_.attrs['nan'] = nan
+    np_.attrs['average'] = Builtin(lambda e, a, axis=None, weights=None: SV(Vec, wmean(to_z3(a, TSeq(Vec)), to_z3(weights, TSeq(TReal)))),
+                                   'numpy.average')
+    cx.spec_env['np'] = np_
+
+    def shape(e, lst):
+        o = Obj('shape')
+
+        def item(e2, k):
+            # shape (0,) of an empty array has no second entry; rows have three coordinates (the dimension is immaterial)
+            e2.maybe_raise(TSeq(Vec).len(to_z3(lst, TSeq(Vec))) > 0, 'IndexError')
+            return 3
+        o.attrs['__getitem__'] = Builtin(item, 'shape[]')
+        return o
+    eng.attr_hooks[('list', 'shape')] = shape
+    return dict(molecule=molecule, weight=weight, ignore_missing_graphs=cx.val('ignore_missing_graphs', TBool))
+
+
+SPEC_DAB = {
+    'npos': "lambda n: pix_len(n)",
+    # the k-th positioned constituent of particle n: (key, atom)
+    'atom_k': "lambda n, k: subs(n)[pix_ix(n, k)]",
+    # what the particle's position must be, given its recorded rows P and weights W
+    'placed': "lambda n, P, W: POS[n] == (NANVEC if abs(SW(W, len(W))) < 1e-7 else wmean(P, W))",
+    'rows_ok': "lambda n, P, W: len(P) == npos(n) and len(W) == npos(n) and forall(lambda k: implies(0 <= k and k < npos(n), "
+               "P[k] == pos_of(atom_k(n, k)[1]) and W[k] == mw_get(n, atom_k(n, k)[0]) * cw_get(atom_k(n, k)[1], weight)))",
+    # the positioned constituents, in order, are exactly the atoms with coordinates
+    'only_positioned': "lambda n: forall(lambda k: implies(0 <= k and k < npos(n), 0 <= pix_ix(n, k) and pix_ix(n, k) < len(subs(n)) and "
+                       "pos_of(subs(n)[pix_ix(n, k)][1]) is not None)) and "
+                       "forall(lambda i: implies(0 <= i and i < len(subs(n)) and pos_of(subs(n)[i][1]) is not None, "
+                       "0 <= pix_rk(n, i) and pix_rk(n, i) < npos(n) and pix_ix(n, pix_rk(n, i)) == i))",
+}
+DONE = ("forall(lambda i: implies(0 <= i and i < {I} and has_graph(pnodes[i]), pnodes[i] in g_P and pnodes[i] in g_W and "
+        "pnodes[i] in POS and rows_ok(pnodes[i], g_P[pnodes[i]], g_W[pnodes[i]]) and "
+        "placed(pnodes[i], g_P[pnodes[i]], g_W[pnodes[i]]) and only_positioned(pnodes[i])))")
+FRAME = ("forall(lambda n: implies(forall(lambda i: implies(0 <= i and i < {I}, not (pnodes[i] == n and has_graph(n)))), "
+         "(n in POS) == (n in old(POS)) and implies(n in POS, POS[n] == old(POS)[n])), PNode)")
+average_loop = FunctionContract(
+    F, 'do_average_bead', 'C09', short='do_average_bead[averaging]', setup=setup_dab, spec_defs=SPEC_DAB, spec_recs=RECS[:1],
+    spec_env=dict(PNode=PNode, Sub=Sub, AKey=AKey, Vec=Vec),
+    region=dict(start="for node in molecule.nodes.values():", nth=2, end="return molecule"),
+    filters={"subnode.get('position') is not None": ('pix', 'node')},
+    locals=dict(g_P=TMap(PNode, TSeq(Vec)), g_W=TMap(PNode, TSeq(TReal))),
+    requires=["forall(lambda i, j: implies(0 <= i and i < j and j < len(pnodes), pnodes[i] != pnodes[j]))"],
+    ghost_at={'entry': "g_P = {}\ng_W = {}"},
+    ensures=[
+        # every particle that represents atoms sits at the weighted mean (numpy.average) of exactly its positioned atoms,
+        # the k-th weight being the mapping weight of the k-th positioned atom times its centre weight; its position is
+        # undefined (NaN) exactly when those weights sum to zero (below 1e-7 in magnitude)
+        DONE.format(I='len(pnodes)'),
+        # nothing else is moved
+        FRAME.format(I='len(pnodes)'),
+    ],
+    modifies=['POS'],
+    loops={'L1': LoopSpec(inv=[DONE.format(I='_i'), FRAME.format(I='_i')], modifies=['POS', 'g_P', 'g_W'],
+                          locals=dict(g_P=TMap(PNode, TSeq(Vec)), g_W=TMap(PNode, TSeq(TReal))),
+                          ghost_end="if 'graph' in node:\n    g_P[pnodes[_i]] = positions\n    g_W[pnodes[_i]] = weights")},
+    canary=[("if subnode.get('position') is not None\n            ])\n            weights", "])\n            weights"),
+            ("if abs(sum(weights)) < 1e-7:", "if sum(weights) < 1e-7:"),
+            ("node.get('mapping_weights', {}).get(subnode_key, 1) * subnode.get(weight, 1)", "node.get('mapping_weights', {}).get(subnode_key, 1)")],
+)
+CONTRACTS.append(average_loop)
+
+
+# ------------------------------------------------------------------ DoAverageBead.run_molecule: which weight is used
+def setup_rm(kind):
+    def setup(cx):
+        eng = cx.eng
+        calls = cx.heap('CALLS', Box(TSeq(TTuple(TBool, WOpt))))      # ghost trace of do_average_bead(molecule, ignore, weight=...)
+        cw = cx.val('center_weight', WOpt)                               # force_field.variables.get('center_weight', None)
+        cx.spec_env['center_weight'] = cw
+        variables = Obj('variables')
+
+        def vget(e, k, d=None):
+            if k == 'center_weight' and d is None:
+                return cw
+            raise EngineError('variables.get(%r, %r) is not modelled' % (k, d))
+        variables.attrs['get'] = Builtin(vget, 'variables.get')
+        molecule = cx.obj('Molecule', force_field=Obj('ForceField', variables=variables))
+        from pyvc.builtins import list_append
+
+        def dab(e, mol, ignore=False, weight=None):
+            if mol is not molecule:
+                raise EngineError('do_average_bead called on another molecule')
+            if isinstance(weight, bool):
+                weight = '<%s>' % weight          # a boolean passed on as if it were an attribute name
+            list_append(e, calls, (ignore, SV(WOpt, to_z3(weight, WOpt))))
+            return mol
+        cx.spec_env['do_average_bead'] = Builtin(dab, 'do_average_bead')
+        w = {'none': None, 'false': False, 'name': cx.val('configured', TStr)}[kind]
+        if kind == 'name':
+            cx.spec_env['configured'] = w
+        self = cx.obj('DoAverageBead', ignore_missing_graphs=cx.val('ignore_missing_graphs', TBool), weight=w)
+        return dict(self=self, molecule=molecule)
+    return setup
+
+
+for _kind, _expect in (('none', 'center_weight'), ('false', 'None'), ('name', 'configured')):
+    CONTRACTS.append(FunctionContract(
+        F, 'DoAverageBead.run_molecule', 'C09', short='run_molecule[weight=%s]' % _kind, setup=setup_rm(_kind),
+        ensures=[
+            # the beads are averaged exactly once, with the force field's centre weight when none is configured, with no
+            # weight when it is switched off (False), and with the configured attribute otherwise
+            "len(CALLS) == 1 and CALLS[0][0] == self.ignore_missing_graphs and raw_eq(CALLS[0][1], %s)" % _expect,
+            # the processor itself is not changed by a run (the next molecule may belong to another force field)
+            {'none': "self.weight is None", 'false': "self.weight is False", 'name': "self.weight == configured"}[_kind],
+        ],
+        modifies=['CALLS'],
+        canary=[("elif self.weight is False:", "elif self.weight is True:")] if _kind == 'false' else
+               [("weight = molecule.force_field.variables.get('center_weight', None)", "weight = None")] if _kind == 'none' else
+               [("weight = self.weight", "weight = None")],
+    ))
